@@ -550,7 +550,6 @@ Mode(seq) == IF seq.ex THEN "exact" ELSE IF seq.by # NoCmp THEN "cls" ELSE "bag"
 \* Everything that depends only on the case is tabulated at constant level
 \* (TLC evaluates constant definitions once); the state holds the case and
 \* the Lister / Slicer / leg state only.
-BOOL == {FALSE, TRUE}
 DescSet == {d = "desc" : d \in Dirs}
 PlanTab == E([p \in Progs |-> E([d \in DescSet |-> PlanOf(p, d)])])
 RowsTab == E([l \in LayoutSet |-> E([d \in DescSet |-> ObjRows(l, d)])])
@@ -559,17 +558,14 @@ MetaTab == E([l \in LayoutSet |-> E([d \in DescSet |-> Metas(l, d)])])
 \* lister.go initObjectScan: stable sort of the snapshot's objects.  Objects with
 \* identical [min,max] tie (the snapshot is a Go map, so their relative order is
 \* arbitrary); the model takes load order for them -- they always share a partition.
-RECURSIVE InsertObj(_, _, _, _)
-InsertObj(o, t, m, d) ==
-  IF t = <<>> THEN <<o>>
-  ELSE IF ListerLess(d, m[o], m[t[1]]) THEN <<o>> \o t
-  ELSE <<t[1]>> \o InsertObj(o, Tail(t), m, d)
-RECURSIVE ListerSort(_, _, _)
-ListerSort(n, m, d) == IF n = 0 THEN <<>> ELSE InsertObj(n, ListerSort(n - 1, m, d), m, d)
-\* lorder by [layout][desc][is "k >= 2" pushed down]
-LorderTab == E([l \in LayoutSet |-> E([d \in DescSet |-> E([wk \in BOOL |->
-                LET m == MetaTab[l][d]
-                IN SelectSeq(ListerSort(Len(l), m, d), LAMBDA o : ~(wk /\ CmpV(I(2), m[o].mx, TRUE) > 0))])])])
+ListerSort(n, m, d) ==
+  \* (no LAMBDA here: TLC does not pre-evaluate constant definitions that contain one)
+  LET rank == E([a \in 1..n |-> 1 + Cardinality({b \in 1..n : ListerLess(d, m[b], m[a]) \/ (~ListerLess(d, m[a], m[b]) /\ b < a)})])
+  IN E([p \in 1..n |-> CHOOSE a \in 1..n : rank[a] = p])
+\* the Lister order by [layout][desc]; the range pruner of a pushed-down
+\* "k >= 2" then skips the objects whose max is below 2
+LorderTab == E([l \in LayoutSet |-> E([d \in DescSet |-> ListerSort(Len(l), MetaTab[l][d], d)])])
+PruneOrder(lor, m, wk) == IF wk THEN SelectSeq(lor, LAMBDA o : CmpV(I(2), m[o].mx, TRUE) <= 0) ELSE lor
 
 \* ---------------------------------------------------------------- pure step functions
 \* (shared by the Next relation below and by the trace replay of ParScanTrace.tla)
@@ -639,7 +635,7 @@ plan == PlanTab[prog][desc]
 rows == RowsTab[lay][desc]
 meta == MetaTab[lay][desc]
 HasWK(pl) == \E i \in 1..Len(pl.filter) : pl.filter[i] = "WK"
-lorder == LorderTab[lay][desc][HasWK(plan)]
+lorder == PruneOrder(LorderTab[lay][desc], meta, HasWK(plan))
 lo == sc.lo
 stash == sc.stash
 parts == sc.parts
@@ -653,7 +649,7 @@ Init ==
   /\ desc \in DescSet
   /\ prog \in Progs
   /\ nleg \in LegCounts
-  /\ sc = ScanState(LorderTab[lay][desc][HasWK(PlanTab[prog][desc])], nleg)
+  /\ sc = ScanState(PruneOrder(LorderTab[lay][desc], MetaTab[lay][desc], HasWK(PlanTab[prog][desc])), nleg)
   /\ served = <<>>
 
 Pull(l) ==
@@ -688,7 +684,7 @@ SpanOf(m, p) == [mn |-> CHOOSE v \in {m[o].mn : o \in SeqRange(p)} : \A w \in {m
 SlicerProps(l, d) ==
   LET m   == MetaTab[l][d]
       rw  == RowsTab[l][d]
-      lor == LorderTab[l][d][FALSE]
+      lor == LorderTab[l][d]
       ps  == SlicerAll(m, lor, <<>>, NONE, NONE)
       sp  == E([i \in 1..Len(ps) |-> SpanOf(m, ps[i])])
   IN /\ \A i \in 1..Len(ps) - 1 :
